@@ -2639,6 +2639,27 @@ pub fn run(ctx: &mut Ctx) {
         // through `shard` + `local_edge`: they must agree on the shard)
         vec![(100_001, default_func), (200_001, box_func), (120_000, fs_filter)]
     };
+    // offline store with FEWER buckets than shards (hint far too small, or explicit log2_buckets):
+    // the shard iterator must split each bucket file into several shards, chunk by chunk,
+    // including the last partial chunk
+    {
+        let plan: Vec<(usize, Option<usize>, Option<u32>)> = if thorough {
+            vec![(150_000, Some(1000), None), (250_000, None, Some(1)), (123_457, Some(10), Some(0)), (300_001, None, Some(2))]
+        } else {
+            vec![(150_000, Some(1000), None)]
+        };
+        for (j, (n, hint, lb)) in plan.into_iter().enumerate() {
+            let c = if j % 2 == 0 { default_func } else { fs_func };
+            let mut s = base_spec(&c, n);
+            s.off = true;
+            s.hint = hint;
+            s.lb = lb;
+            s.vs = Vs::Rnd(77 + j as u64);
+            s.seed = 300 + j as u64;
+            ctx.stat("offline_fewer_buckets_than_shards");
+            run_case(ctx, &s, &o);
+        }
+    }
     for (n, c) in bigs {
         let mut s = random_spec(ctx, &c, n);
         s.hint = match ctx.rng.below(3) {
